@@ -243,13 +243,13 @@ for _fin, _fld in ((False, 'angle'), (True, 'object_height'), (True, 'angle')):
 
 
 # ---- Paraxial.trace(0, 1) / (1, 0) are the marginal / chief ray lines (links the launch lemmas to marginal_ray(), chief_ray()) ----
-def _unit_rays(finite, field):
-    tag = '%s.%s' % ('finite' if finite else 'infinite', field)
+def _unit_rays(finite, field, ap='EPD'):
+    tag = '%s.%s' % ('finite' if finite else 'infinite', field) + ('' if ap == 'EPD' else '.' + ap)
 
     @contract('C05.unit_rays.' + tag, ['optiland/paraxial.py:Paraxial.trace', 'optiland/paraxial.py:Paraxial._get_object_position',
                                        'optiland/paraxial.py:Paraxial.marginal_ray'], ['C05'], bundle=True, max_paths=64, concolic=False)
     def ur(c):
-        lens, v, apv = _launch_lens(c, finite, 'EPD', field)
+        lens, v, apv = _launch_lens(c, finite, ap, field)
         EPLv, EPDv = lens.paraxial.EPL(), lens.paraxial.EPD()
         lens.paraxial.EPL = lambda: EPLv
         lens.paraxial.EPD = lambda: EPDv
@@ -286,6 +286,10 @@ def _unit_rays(finite, field):
 
 for _fin, _fld in ((False, 'angle'), (True, 'object_height'), (True, 'angle')):
     _unit_rays(_fin, _fld)
+# every aperture type: the marginal ray is launched towards the rim of the entrance pupil EPD() describes, whatever defines EPD()
+_unit_rays(True, 'object_height', 'objectNA')
+_unit_rays(True, 'angle', 'objectNA')
+_unit_rays(False, 'angle', 'imageFNO')
 
 
 # ---- bounded tier: whole lenses, geometric eps sequences -------------------------------------------------------------------
